@@ -98,47 +98,67 @@ Proof.
   - specialize (IH c t cols Hl). destruct (run_stmts l c) as [c' tr]. exact IH.
 Qed.
 
-(* ---------- user operations ---------- *)
+(* ---------- user operations (commit / write / rollback) ---------- *)
 
-Lemma do_op_cur_sr (c : conn) (o : op) : sr (cur (do_op c o)) = sr (cur c).
-Proof. destruct o; reflexivity. Qed.
+Lemma do_op_cur_sr (c : conn) (o : op) : o <> OpRollback -> sr (cur (do_op c o)) = sr (cur c).
+Proof. destruct o; intro H; [reflexivity | reflexivity | contradiction]. Qed.
 
-Lemma ops_cur_sr (ops : list op) : forall c, sr (cur (fold_left do_op ops c)) = sr (cur c).
+(* without a rollback the session's view of schema and revision never changes *)
+Lemma ops_cur_sr (ops : list op) : forall c, ~ In OpRollback ops -> sr (cur (fold_left do_op ops c)) = sr (cur c).
 Proof.
-  induction ops as [|o ops IH]; intro c; simpl; [reflexivity|]. rewrite IH. apply do_op_cur_sr.
+  induction ops as [|o ops IH]; intros c H; simpl; [reflexivity|].
+  rewrite IH; [|intro Hin; apply H; right; exact Hin].
+  apply do_op_cur_sr. intro E. apply H. left. exact E.
 Qed.
 
 Lemma ops_no_commit_disk (ops : list op) : forall c, ~ In OpCommit ops -> disk (fold_left do_op ops c) = disk c.
 Proof.
   induction ops as [|o ops IH]; intros c H; simpl; [reflexivity|].
   rewrite IH; [|intro Hin; apply H; right; exact Hin].
-  destruct o; [exfalso; apply H; left; reflexivity | reflexivity].
+  destruct o; [exfalso; apply H; left; reflexivity | reflexivity | reflexivity].
 Qed.
 
-(* once the session's view and the file agree on schema and revision, they keep agreeing *)
+(* once the session's view and the file agree on schema and revision, they keep agreeing -- whatever the
+   user does, rollbacks included *)
+Lemma do_op_agree (c : conn) (o : op) : sr (disk c) = sr (cur c) ->
+  sr (disk (do_op c o)) = sr (cur c) /\ sr (cur (do_op c o)) = sr (cur c).
+Proof. intro H. destruct o; simpl; auto. Qed.
+
+Lemma ops_agree2 (ops : list op) : forall c, sr (disk c) = sr (cur c) ->
+  sr (disk (fold_left do_op ops c)) = sr (cur c) /\ sr (cur (fold_left do_op ops c)) = sr (cur c).
+Proof.
+  induction ops as [|o ops IH]; intros c H; simpl; [auto|].
+  destruct (do_op_agree c o H) as [H1 H2].
+  destruct (IH (do_op c o) ltac:(congruence)) as [I1 I2]. split; congruence.
+Qed.
+
 Lemma ops_agree (ops : list op) : forall c, sr (disk c) = sr (cur c) -> sr (disk (fold_left do_op ops c)) = sr (cur c).
-Proof.
-  induction ops as [|o ops IH]; intros c H; simpl; [exact H|].
-  rewrite IH; [apply do_op_cur_sr|]. rewrite do_op_cur_sr. destruct o; simpl; [reflexivity | exact H].
-Qed.
+Proof. intros c H. apply (ops_agree2 ops c H). Qed.
 
-(* a commit anywhere in the session stores the session's schema and revision *)
-Lemma ops_commit_disk (ops : list op) : forall c, In OpCommit ops -> sr (disk (fold_left do_op ops c)) = sr (cur c).
+(* a commit anywhere in a session without rollback stores the session's schema and revision *)
+Lemma ops_commit_disk (ops : list op) : forall c, ~ In OpRollback ops -> In OpCommit ops ->
+  sr (disk (fold_left do_op ops c)) = sr (cur c).
 Proof.
-  induction ops as [|o ops IH]; intros c H; simpl; [contradiction|].
+  induction ops as [|o ops IH]; intros c Hr H; simpl; [contradiction|].
+  assert (Hr' : ~ In OpRollback ops) by (intro Hin; apply Hr; right; exact Hin).
   destruct o.
-  - rewrite ops_agree; [apply (do_op_cur_sr c OpCommit) | reflexivity].
-  - destruct H as [H|H]; [discriminate|]. rewrite (IH _ H). apply (do_op_cur_sr c OpWrite).
+  - rewrite ops_agree; reflexivity.
+  - destruct H as [H|H]; [discriminate|]. rewrite (IH _ Hr' H). reflexivity.
+  - exfalso. apply Hr. left. reflexivity.
 Qed.
 
 (* whatever the operations: the file ends with the old or with the session's schema / revision *)
+Lemma ops_two (D C : schema * rev) (ops : list op) : forall c,
+  (sr (disk c) = D \/ sr (disk c) = C) -> (sr (cur c) = D \/ sr (cur c) = C) ->
+  sr (disk (fold_left do_op ops c)) = D \/ sr (disk (fold_left do_op ops c)) = C.
+Proof.
+  induction ops as [|o ops IH]; intros c Hd Hc; simpl; [exact Hd|].
+  apply IH; destruct o; simpl; auto.
+Qed.
+
 Lemma ops_disk_cases (ops : list op) : forall c,
   sr (disk (fold_left do_op ops c)) = sr (disk c) \/ sr (disk (fold_left do_op ops c)) = sr (cur c).
-Proof.
-  intros c. destruct (in_dec (fun a b : op => ltac:(decide equality) : {a = b} + {a <> b}) OpCommit ops) as [H|H].
-  - right. apply ops_commit_disk. exact H.
-  - left. rewrite ops_no_commit_disk; auto.
-Qed.
+Proof. intro c. apply ops_two; auto. Qed.
 
 (* ---------- migrate ---------- *)
 
@@ -318,8 +338,7 @@ Section Sessions.
     intros Hi Hr Hs. unfold Model.run_session, open_database.
     rewrite (migrate_current ss (mkconn d None) Hi Hr Hs). simpl.
     split; [reflexivity|]. split; [reflexivity|].
-    pose proof (ops_cur_sr ops (mkconn d None)) as H1.
-    pose proof (ops_agree ops (mkconn d None) eq_refl) as H2. simpl in H1, H2.
+    destruct (ops_agree2 ops (mkconn d None) eq_refl) as [H2 H1]. simpl in H1, H2.
     split; [exact H1|]. split; [exact H2|]. eexists. split; [reflexivity | exact H2].
   Qed.
 
@@ -344,15 +363,15 @@ Section Sessions.
 
   (* PARTIAL fixed point: if the first session commits, the file is stamped current afterwards *)
   Lemma session_commit_stamps (orm : schema) (ss : list step) (d : db) (ops : list op) :
-    ids_distinct ss -> revs_distinct ss -> ss <> [] -> d_rev d <> REmpty -> In OpCommit ops ->
+    ids_distinct ss -> revs_distinct ss -> ss <> [] -> d_rev d <> REmpty -> In OpCommit ops -> ~ In OpRollback ops ->
     let (o, f') := run_session orm ss (File d) ops in
     exists d', f' = File d' /\ d_rev d' = RRow (Some (rev_id ss)) /\ d_schema d' = d_schema (s_open o).
   Proof.
-    intros Hi Hr Hne Hemp Hc. unfold Model.run_session, open_database.
+    intros Hi Hr Hne Hemp Hc Hnr. unfold Model.run_session, open_database.
     pose proof (migrate_stamps_view ss d Hi Hr Hne Hemp) as Hv.
     destruct (migrate ss (mkconn d None)) as [c tr]. simpl in *.
     eexists. split; [reflexivity|].
-    pose proof (ops_commit_disk ops c Hc) as H. unfold sr in H. injection H as H1 H2.
+    pose proof (ops_commit_disk ops c Hnr Hc) as H. unfold sr in H. injection H as H1 H2.
     split; [rewrite H2; exact Hv | exact H1].
   Qed.
 
@@ -432,7 +451,7 @@ Section Sessions.
   (* PARTIAL fixed point, complete form: first session commits => stamped; afterwards every session
      (any operations) executes nothing and leaves schema and revision untouched *)
   Lemma commit_then_fixpoint (orm : schema) (ss : list step) (d : db) (ops : list op) (h : list (list op)) :
-    ids_distinct ss -> revs_distinct ss -> ss <> [] -> d_rev d <> REmpty -> In OpCommit ops ->
+    ids_distinct ss -> revs_distinct ss -> ss <> [] -> d_rev d <> REmpty -> In OpCommit ops -> ~ In OpRollback ops ->
     exists d1, snd (run_session orm ss (File d) ops) = File d1
       /\ d_rev d1 = RRow (Some (rev_id ss))
       /\ d_schema d1 = d_schema (s_open (fst (run_session orm ss (File d) ops)))
@@ -440,8 +459,8 @@ Section Sessions.
                 (fst (run_history orm ss (File d1) h))
       /\ exists d2, snd (run_history orm ss (File d1) h) = File d2 /\ sr d2 = sr d1.
   Proof.
-    intros Hi Hr Hne Hemp Hc.
-    pose proof (session_commit_stamps orm ss d ops Hi Hr Hne Hemp Hc) as S.
+    intros Hi Hr Hne Hemp Hc Hnr.
+    pose proof (session_commit_stamps orm ss d ops Hi Hr Hne Hemp Hc Hnr) as S.
     destruct (run_session orm ss (File d) ops) as [o f']. destruct S as [d1 [-> [S1 S2]]].
     exists d1. simpl. split; [reflexivity|]. split; [exact S1|]. split; [exact S2|].
     apply history_current; assumption.
